@@ -46,6 +46,12 @@ package dispatcher
 
 //@ func (*PushDispatcher).classifyDelivery
 //@   requires d != nil
+//@   loop 1 invariant [made] header != nil && fresh(header)
+//@   loop 1 invariant [visited_present] forall k string :: k in visited ==> canon(k) in header && len(header[canon(k)]) == 1
+//@   loop 1 ghost src gmap[string]string := _ step store(src, canon(lastkey), lastkey)
+//@   loop 1 invariant [values_are_stored_values] forall h string :: h in header ==> len(header[h]) == 1 && allocated(header[h].arr) && src[h] in env.Headers && canon(src[h]) == h && header[h][0] == env.Headers[src[h]]
+//@   calls dispatcher.Deliverer.Deliver requires [C07:every_stored_header_is_sent_under_its_canonical_name] callee_delivery.Header != nil && forall k string :: k in env.Headers ==> canon(k) in callee_delivery.Header && len(callee_delivery.Header[canon(k)]) == 1
+//@   calls dispatcher.Deliverer.Deliver requires [C07:every_sent_header_value_is_a_stored_value_of_that_name] forall h string :: h in callee_delivery.Header ==> len(callee_delivery.Header[h]) == 1 && exists k2 string :: k2 in env.Headers && canon(k2) == h && callee_delivery.Header[h][0] == env.Headers[k2]
 //@   calls dispatcher.Deliverer.Deliver requires [C07:delivery_body_is_the_stored_payload] callee_delivery.Body == env.Payload && callee_delivery.ID == env.ID && callee_delivery.URL == target.URL && callee_delivery.Method == "POST"
 //@   modifies lastErr, lastCode, delivers, attemptsRecorded, lastOutcome, lastDeadReason, lastAttemptNo, lastAttemptEvent
 //@   ensures [one_send] delivers == old(delivers) + 1
